@@ -365,8 +365,24 @@ func classifyRange(p *packages.Package, site rangeSite) (class string, why strin
 			}
 		}
 		// (vi) take the only element: `x = k; break` under a dominating len(m) <= 1
-		// (iii) append to a slice that is sorted before any other use
-		if as, ok := body[0].(*ast.AssignStmt); ok && len(as.Lhs) == 1 {
+		// (iii) append to a slice that is sorted before any other use - of every element, or of the elements that pass a
+		// test on the element alone (`if k != marker { s = append(s, k) }`)
+		collect := body[0]
+		if is, ok := collect.(*ast.IfStmt); ok && is.Init == nil && is.Else == nil && len(is.Body.List) == 1 && pure(is.Cond) {
+			onlyElem := true
+			ast.Inspect(is.Cond, func(n ast.Node) bool {
+				if id, ok := n.(*ast.Ident); ok && id.Name != key && id.Name != val {
+					if _, isConst := info.ObjectOf(id).(*types.Const); !isConst && id.Name != "true" && id.Name != "false" && id.Name != "nil" && id.Name != "len" {
+						onlyElem = false
+					}
+				}
+				return true
+			})
+			if onlyElem {
+				collect = is.Body.List[0]
+			}
+		}
+		if as, ok := collect.(*ast.AssignStmt); ok && len(as.Lhs) == 1 {
 			s := nospace(as.Lhs[0])
 			r := nospace(as.Rhs[0])
 			if r == "append("+s+","+key+")" || (val != "" && r == "append("+s+","+val+")") {
